@@ -287,7 +287,7 @@ def tsat(p, bounds = False):
     else: ok = True
     if ok:
         from scipy.optimize import fsolve
-        def f(t): return sat(t) - p
+        def f(t): return sat(t[0]) - p # (fsolve passes a one-element array)
         from math import log
         t0 = max(4606.0 / (24.02 - log(p)) - 273.15, 5.0) # starting estimate
         t = fsolve(f, t0)
